@@ -357,6 +357,53 @@ FEATURES = [
     ('mixed-syntax-as-string', 'a %(x)s <dtml-var x> %(y)s b',
      [lambda: dict(x=1, y=2), lambda: dict(x='<', y='>'),
       lambda: dict(x=None, y='')], {'cls': 'String'}),
+    # a name that is absent, asked for with missing=: absent it stays
+    ('missing-in-mapping', '<dtml-in seq mapping><dtml-var cost missing="-">'
+                           '<dtml-if "_.has_key(\'cost\')">!</dtml-if>,'
+                           '</dtml-in><dtml-with m mapping><dtml-var cost '
+                           'missing="-"><dtml-if "_.has_key(\'cost\')">!'
+                           '</dtml-if></dtml-with>',
+     [lambda: dict(seq=[{'a': 1}, {'cost': 5}], m={'b': 2}),
+      lambda: dict(seq=({'a': 1}, {'a': 2}), m={'cost': 0}),
+      lambda: dict(seq=[], m={})]),
+    ('missing-defaults', '<dtml-var cost missing="-"><dtml-if '
+                         '"_.has_key(\'cost\')">!</dtml-if>|&dtml-d0;',
+     [lambda: dict(), lambda: dict(cost=1), lambda: dict()], {'d0': 'x'}),
+    # three levels of blocks, every block kind once innermost: in a process
+    # that has compiled nothing yet these are the first uses of the tags
+    ('nest3-let', '<dtml-if a><dtml-in seq><dtml-let v=sequence-item>'
+                  '[<dtml-var v>]</dtml-let></dtml-in><dtml-else>E</dtml-if>',
+     [lambda: dict(a=1, seq=[1, 2]), lambda: dict(a=0, seq=[1]),
+      lambda: dict(a=1, seq=[])]),
+    ('nest3-with', '<dtml-unless a><dtml-try><dtml-with o>[<dtml-var x>]'
+                   '</dtml-with><dtml-except>X</dtml-try></dtml-unless>.',
+     [lambda: dict(a=0, o=Obj(x=1)), lambda: dict(a=0, o=Obj(y=2)),
+      lambda: dict(a=1, o=Obj(x=3))]),
+    ('nest3-try', '<dtml-in seq><dtml-with sequence-item><dtml-try>'
+                  '[<dtml-var k>]<dtml-except>X</dtml-try></dtml-with>'
+                  '</dtml-in>.',
+     [lambda: dict(seq=objs(1, 2)), lambda: dict(seq=[Obj(q=1)]),
+      lambda: dict(seq=[])]),
+    ('nest3-if', '<dtml-with o><dtml-let v=x><dtml-if v>[<dtml-var v>]'
+                 '<dtml-else>F</dtml-if></dtml-let></dtml-with>.',
+     [lambda: dict(o=Obj(x=1)), lambda: dict(o=Obj(x=0)),
+      lambda: dict(o=Obj(x='s'))]),
+    ('nest3-in', '<dtml-try><dtml-unless a><dtml-in seq>[<dtml-var '
+                 'sequence-item>]</dtml-in></dtml-unless><dtml-except>X'
+                 '</dtml-try>.',
+     [lambda: dict(a=0, seq=[1, 2]), lambda: dict(a=1, seq=[1]),
+      lambda: dict(a=0, seq=7)]),
+    ('nest3-unless', '<dtml-let v=a><dtml-in seq><dtml-unless v>'
+                     '[<dtml-var sequence-item>]</dtml-unless></dtml-in>'
+                     '</dtml-let>.',
+     [lambda: dict(a=0, seq=[1, 2]), lambda: dict(a=1, seq=[1]),
+      lambda: dict(a=0, seq=[])]),
+    ('nest3-raise', '<dtml-try><dtml-in seq><dtml-if sequence-item>'
+                    '<dtml-raise KeyError>m<dtml-var sequence-item>'
+                    '</dtml-raise></dtml-if></dtml-in>none<dtml-except '
+                    'KeyError>[<dtml-var error_value>]</dtml-try>.',
+     [lambda: dict(seq=[0, 3]), lambda: dict(seq=[0, 0]),
+      lambda: dict(seq=[])]),
     # construction-time data: keyword defaults (also with underscore names),
     # a defaults mapping (underscore keys are not taken), values set through
     # var() -- all of it is part of what a copy / restored object renders
@@ -404,9 +451,14 @@ def snapshot(ns):
     """identity snapshot of the caller's data (top level and one level
     into lists / dicts)"""
     snap = {}
+    def item(x):
+        # a mapping item: its keys and the identities of its values
+        if isinstance(x, dict):
+            return (id(x), sorted((repr(a), id(b)) for a, b in x.items()))
+        return id(x)
     for k, v in ns.items():
-        if isinstance(v, list):
-            snap[k] = (id(v), [id(x) for x in v])
+        if isinstance(v, (list, tuple)):
+            snap[k] = (id(v), [item(x) for x in v])
         elif isinstance(v, dict):
             snap[k] = (id(v), sorted((repr(a), id(b)) for a, b in v.items()))
         else:
